@@ -32,6 +32,7 @@ THEOREMS = [
     "C11.early_tmp_left_rolled_back",
     "C11.fault_upto_drop_unchanged",
     "C11.explicit_begin_rollback_restores",
+    "C11.tmp_taken_untouched",
     "C11.early_tmp_gone_partial",
 ]
 PARTIAL = {
@@ -55,7 +56,7 @@ TRUSTED = c10mod.TRUSTED + [
 ]
 RULE = (
     "C10's table/row/op generators x connection mode (pysqlite legacy / AUTOCOMMIT / BEGIN recipe) x transactional_ddl option (default / True); for each case the fault-free run gives the statement count n, then a fault is injected at "
-    "k = 0..n-1 (quick: 3 sampled k per case, thorough: every k) under each scope (none / outer / swallow); natural failures come from the "
+    "k = 0..n-1 (quick: 3 sampled k per case, thorough: every k; plus two-step scenarios: a first batch fails at the RENAME under durable statements so that all rows live under the temporary name only, then the migration is retried - reflected or with copy_from, with or without an empty table re-created under the original name, with or without a fault at its first statement) under each scope (none / outer / swallow); natural failures come from the "
     "fault-free runs.  Non-trivial = the run failed after at least one statement and the table had >= 1 row; distinct by "
     "(statement kinds up to the failure, outcome, scope, recreate, copy_from)"
 )
@@ -64,7 +65,8 @@ ASSUMPTIONS = c10mod.ASSUMPTIONS + ["single fault: only one statement fails (the
 
 def input_of(case):
     return {"table": case["table"], "ops": case["ops"], "recreate": case["recreate"], "copy_from": case["copy_from"],
-            "fault": case["fault"], "scope": case["scope"], "iso": case.get("iso", "default"), "tddl": case.get("tddl")}
+            "fault": case["fault"], "scope": case["scope"], "iso": case.get("iso", "default"), "tddl": case.get("tddl"),
+            **({"two_step": case["two_step"]} if case.get("two_step") else {})}
 
 
 def stmt_kinds(stmts):
@@ -81,8 +83,9 @@ def judge(ctx, pending):
     for case, r in pending:
         ops.append(bc.model_op(case, r))
         failed = applicable(r)
-        ops.append(bc.spec11_op(case, r, "fresh") if failed and r["before"]["orig"] else {"op": "noop"})
-        ops.append(bc.spec11_op(case, r, "same") if failed and r["before"]["orig"] else {"op": "noop"})
+        judged = failed and (r["before"]["orig"] or case.get("orig0"))
+        ops.append(bc.spec11_op(case, r, "fresh") if judged else {"op": "noop"})
+        ops.append(bc.spec11_op(case, r, "same") if judged else {"op": "noop"})
     ans = ctx.drv.ask(ops)
     for k, (case, r) in enumerate(pending):
         m, s1, s2 = ans[3 * k], ans[3 * k + 1], ans[3 * k + 2]
@@ -103,6 +106,25 @@ def judge(ctx, pending):
         if k < 2:
             ctx.sample({"input": input_of(case), "stmts": r["stmts"], "outcome": r["outcome"]})
     pending.clear()
+
+
+def two_step(ctx, base, k_rename, rng, pending):
+    """step 1: fault at the RENAME with durable statements (rows end up under the temporary name only);
+    step 2: the migration again on that database (see batch_corr.run_two_step)"""
+    iso, scope = rng.choice([("autocommit", "none"), ("autocommit", "outer"), ("default", "swallow"), ("begin", "swallow")])
+    c1 = bc.new_case(base["table"], base["ops"], base["recreate"], base["copy_from"], k_rename, scope, iso, rng.choice(TDDLS))
+    st = {"recreate_empty": rng.random() < 0.5, "copy_from": rng.random() < 0.6, "fault": rng.choice([None, None, 0]),
+          "scope": rng.choice(SCOPES), "tddl": rng.choice(TDDLS)}
+    r1, c2, r2 = bc.run_two_step(c1, st)
+    ctx.evaluation()
+    ctx.hist("two_step", "step1 did not leave the rows under the temp name only" if r2 is None else
+             "retry: %s%s" % ("copy_from" if st["copy_from"] else "reflected", ", empty table re-created" if st["recreate_empty"] else ""))
+    if r2 is None:
+        return
+    ctx.hist("two_step_outcome", bc.canon_outcome(r2["outcome"]) or "ok")
+    if r2["outcome"] != "ok" and c2["orig0"]["rows"]:
+        ctx.nontrivial(("two_step", st["recreate_empty"], st["copy_from"], st["fault"], st["scope"], iso, bc.canon_outcome(r2["outcome"])))
+    pending.append((c2, r2))
 
 
 def one(ctx, case, pending):
@@ -152,7 +174,7 @@ WITNESSES = {
 
 def run(ctx, n_cases=None, rng_name="main"):
     rng = ctx.rng(rng_name)
-    n = n_cases or (500 if ctx.thorough else 220)
+    n = n_cases or (500 if ctx.thorough else 190)
     pending = []
     for i in range(n):
         t = bg.gen_table(rng, big=ctx.thorough and i % 5 == 0)
@@ -174,6 +196,8 @@ def run(ctx, n_cases=None, rng_name="main"):
                 for sc in (SCOPES if ctx.thorough else [rng.choice(SCOPES)]):
                     for iso in (ISOS if ctx.thorough else [rng.choice(ISOS)]):
                         one(ctx, bc.new_case(t, ops, recreate, copy_from, k, sc, iso, rng.choice(TDDLS)), pending)
+        if r0["outcome"] == "ok" and "renameTmp" in r0["stmts"] and rng.random() < (0.5 if ctx.thorough else 0.4):
+            two_step(ctx, base, r0["stmts"].index("renameTmp"), rng, pending)
         if len(pending) >= 200:
             judge(ctx, pending)
     judge(ctx, pending)
@@ -224,12 +248,20 @@ def classify(failure):
 
 def replay(ctx, case):
     inp = case["input"]
-    c = bc.new_case(inp["table"], inp["ops"], inp.get("recreate", "always"), inp.get("copy_from", False), inp.get("fault"),
-                    inp.get("scope", "none"), inp.get("iso", "default"), inp.get("tddl"))
-    r = bc.run_impl(c)
+    if inp.get("two_step"):
+        s1, s2 = inp["two_step"]["step1"], inp["two_step"]["step2"]
+        c1 = bc.new_case(inp["table"], inp["ops"], inp.get("recreate", "always"), s1["copy_from"], s1["fault"], s1["scope"],
+                         inp.get("iso", "default"), s1.get("tddl"))
+        r1, c, r = bc.run_two_step(c1, s2)
+        if r is None:
+            return {"step1": bc.brief(r1), "note": "step 1 did not leave the rows under the temporary name only"}
+    else:
+        c = bc.new_case(inp["table"], inp["ops"], inp.get("recreate", "always"), inp.get("copy_from", False), inp.get("fault"),
+                        inp.get("scope", "none"), inp.get("iso", "default"), inp.get("tddl"))
+        r = bc.run_impl(c)
     m = ctx.drv.ask1(bc.model_op(c, r))
     out = {"impl": bc.brief(r), "model": {"stmts": m.get("stmts"), "outcome": m.get("outcome")}, "differences": bc.compare(c, r, m)}
-    if r["outcome"] != "ok" and r["before"]["orig"]:
+    if r["outcome"] != "ok" and (r["before"]["orig"] or c.get("orig0")):
         out["spec_fresh"] = ctx.drv.ask1(bc.spec11_op(c, r, "fresh"))
         out["spec_same"] = ctx.drv.ask1(bc.spec11_op(c, r, "same"))
     return out
